@@ -247,12 +247,18 @@ func (y *c04Sys) runTree(descs []c04Desc) (c04Result, *engine.Violation) {
 		return r, nil
 	}
 	t := mkTree("c04", wds, 0)
-	// the committing output is the bridge's second one (index 2 on bridge 1: index and bridge id differ)
+	// the committing output is the bridge's second of three (index 2 on bridge 1: index and bridge id differ,
+	// and it is neither the oldest nor the newest final output when the claims are made)
 	other := ref.Sum256([]byte("an earlier output"))
 	if res := y.w1.Deliver(c1, ophosttypes.NewMsgProposeOutput(world.Addr("proposer").String(), 1, 1, 5, other[:])); !res.OK() {
 		return r, viol("faithful-proposal-is-accepted", "proposal failed: %v", res.Err)
 	}
 	if res := y.w1.Deliver(c1, ophosttypes.NewMsgProposeOutput(world.Addr("proposer").String(), 1, 2, 10, t.OutputRoot[:])); !res.OK() {
+		return r, viol("faithful-proposal-is-accepted", "proposal failed: %v", res.Err)
+	}
+	// ... and not its last one: a later output is proposed (and becomes final) before the claims are made
+	later := ref.Sum256([]byte("a later output"))
+	if res := y.w1.Deliver(c1, ophosttypes.NewMsgProposeOutput(world.Addr("proposer").String(), 1, 3, 20, later[:])); !res.OK() {
 		return r, viol("faithful-proposal-is-accepted", "proposal failed: %v", res.Err)
 	}
 	r.transitions++
